@@ -18,22 +18,21 @@ func (e *Engine) constGlobalValue(c *Ctx, st *State, g *ssa.Global) (T, bool) {
 	if initFn == nil {
 		return T{}, false
 	}
-	var store *ssa.Store
+	var stores []*ssa.Store
 	for _, b := range initFn.Blocks {
 		for _, in := range b.Instrs {
-			if s, ok := in.(*ssa.Store); ok && s.Addr == g {
-				store = s
+			if s, ok := in.(*ssa.Store); ok && rootGlobal(s.Addr) == g {
+				stores = append(stores, s)
 			}
 		}
-	}
-	if store == nil {
-		return T{}, false
 	}
 	allocs := map[*ssa.Alloc]string{}
 	var eval func(v ssa.Value) (T, bool)
 	var addrOf func(v ssa.Value) (string, bool)
 	addrOf = func(v ssa.Value) (string, bool) {
 		switch x := v.(type) {
+		case *ssa.Global:
+			return c.reg.Global(x.Pkg.Pkg.Path() + "." + x.Name()), true
 		case *ssa.Alloc:
 			if a, ok := allocs[x]; ok {
 				return a, true
@@ -105,12 +104,44 @@ func (e *Engine) constGlobalValue(c *Ctx, st *State, g *ssa.Global) (T, bool) {
 		}
 		return T{}, false
 	}
-	t, ok := eval(store.Val)
-	if !ok {
-		return T{}, false
+	gaddr := c.reg.Global(g.Pkg.Pkg.Path() + "." + g.Name())
+	gT := g.Type().Underlying().(*types.Pointer).Elem()
+	covered := map[string]bool{}
+	for _, sto := range stores {
+		ad, ok1 := addrOf(sto.Addr)
+		val, ok2 := eval(sto.Val)
+		if !ok1 || !ok2 {
+			return T{}, false
+		}
+		cur := c.loadWith(func(k string) string { return c.mem(st, k) }, ad, sto.Val.Type())
+		st.assume("(= " + cur + " " + val.S + ")")
+		for _, lp := range c.leafPaths(sto.Val.Type(), nil) {
+			covered[applyPath(ad, lp.path)] = true
+		}
 	}
-	t.Ty = store.Val.Type()
-	return t, true
+	for _, lp := range c.leafPaths(gT, nil) {
+		a := applyPath(gaddr, lp.path)
+		if !covered[a] {
+			cur := c.loadWith(func(k string) string { return c.mem(st, k) }, a, lp.ty)
+			st.assume("(= " + cur + " " + c.zero(lp.ty) + ")")
+		}
+	}
+	return c.load(st, gaddr, gT), true
+}
+
+func rootGlobal(v ssa.Value) *ssa.Global {
+	for {
+		switch x := v.(type) {
+		case *ssa.Global:
+			return x
+		case *ssa.IndexAddr:
+			v = x.X
+		case *ssa.FieldAddr:
+			v = x.X
+		default:
+			return nil
+		}
+	}
 }
 
 func rootAlloc(v ssa.Value) *ssa.Alloc {
